@@ -64,6 +64,9 @@ def check(report, work, vh, prelude, cases, family="vm", tag="vm", maxsteps=3000
     if not res.ok():
         vc.log("ValidateVM: TLC reported:\n" + vc.tlc_error_text(res)[:1500])
         counters["tlc_error"] = 1
+        import re as _re
+        if _re.search(r"Semantic errors|\*\*\* Errors: \d|Parse Error|Fatal errors while parsing|Could not find module", res.out) or (usable and not vs):
+            raise vc.ToolError("ValidateVM.tla produced no verdict at all (the specification does not load or failed on the first record):\n" + vc.tlc_error_text(res)[:1500])
     for rec in usable:
         v = vs.get(rec["id"])
         if v is None:
